@@ -38,11 +38,15 @@ class Gen:
     def coin(self, p):
         return self.r.random() < p
 
+    strict = False
+
     def column(self, name, allow_pk, tabcols):
         r = self.r
         typ = r.choice(TYPES)
         if self.coin(0.02):
             typ = r.choice(RARE_TYPES)
+        if self.strict:
+            typ = r.choice(["INT", "INTEGER", "REAL", "TEXT", "BLOB", "ANY", "integer", "Text", "INTEGER", "TEXT"])
         parts = []
         cons = []
         info = {"pk": False}
@@ -135,6 +139,7 @@ class Gen:
         cols = []
         have_pk = False
         style = r.random()
+        self.strict = self.coin(0.05)       # a STRICT table (SQLite 3.37+): only the six strict type names
         for n in names:
             c, info = self.column(n, allow_pk=(not have_pk and style < 0.6), tabcols=names)
             have_pk = have_pk or info["pk"]
@@ -143,6 +148,17 @@ class Gen:
         if not have_pk and self.coin(0.5):
             tcons.append("PRIMARY KEY (" + ", ".join(self.indexed_cols(names)) + ")" + (" ON CONFLICT REPLACE" if self.coin(0.02) else ""))
             have_pk = True
+        dup_family = False
+        if not have_pk and len(names) >= 2 and self.coin(0.06):
+            # a key that names a column twice, next to UNIQUE constraints equal to the key as written / as shortened
+            a, b = names[0], names[1]
+            tcons.append("PRIMARY KEY (%s)" % ", ".join(r.choice([[a, b, a], [a, a, b], [b, a, b], [a, b, b]])))
+            have_pk = True
+            dup_family = True
+            for u in r.sample([[a, b], [a, b, a], [b, a], [a, a, b], [b, a, b]], r.choice([1, 2])):
+                tcons.append("UNIQUE (%s)" % ", ".join(u))
+            if self.coin(0.5):
+                r.shuffle(tcons)
         for _ in range(r.choice([0, 0, 1, 1, 2])):
             tcons.append("UNIQUE (" + ", ".join(self.indexed_cols(names)) + ")")
         if self.coin(0.03):
@@ -155,8 +171,14 @@ class Gen:
                 c = "CONSTRAINT tc%d %s" % (r.randint(0, 99), c)
             tcons2.append(c)
         suffix = ""
-        if have_pk and self.coin(0.3):
+        if have_pk and self.coin(0.75 if dup_family else 0.3):
             suffix = r.choice([" WITHOUT ROWID", " without rowid", "WITHOUT ROWID"])
+        if self.strict:
+            if suffix:
+                suffix = r.choice([" WITHOUT ROWID, STRICT", " STRICT, WITHOUT ROWID", " strict, without rowid"])
+            else:
+                suffix = r.choice([" STRICT", " strict"])
+        self.strict = False
         indexes = []
         for k in range(r.choice([0, 1, 1, 2, 3])):
             iname = r.choice(["ix%d_%d", "\"ix %d %d\"", "IX%d_%d"]) % (seq, k)
